@@ -976,7 +976,7 @@ struct layout_t
 		assert(this->size()%2 == 0);
 		return layout_t<D + 1>(
 			this->take(this->size()/2),
-			this->nelems()/2,
+			(this->nelems()/2 != 0)?this->nelems()/2:1,  // stride 1 for an empty view, as the constructor from extensions does
 			0,
 			this->nelems()
 		);
